@@ -126,8 +126,13 @@ func fieldAny(v reflect.Value, name string) (reflect.Value, bool) {
 	return reflect.NewAt(f.Type(), unsafe.Pointer(f.UnsafeAddr())).Elem(), true
 }
 
-func newScanProbe(s *influxql.Scanner) *scanProbe {
-	p := &scanProbe{}
+func newScanProbe(s *influxql.Scanner) (p *scanProbe) {
+	p = &scanProbe{}
+	defer func() {
+		if recover() != nil {
+			p = &scanProbe{why: "scanner internals have an unexpected layout"}
+		}
+	}()
 	sv := reflect.ValueOf(s).Elem()
 	rf, ok := fieldAny(sv, "r")
 	if !ok || rf.Kind() != reflect.Ptr || rf.IsNil() {
@@ -159,26 +164,54 @@ func newScanProbe(s *influxql.Scanner) *scanProbe {
 	return p
 }
 
+func asInt(v reflect.Value) (int, bool) {
+	switch v.Kind() {
+	case reflect.Int, reflect.Int8, reflect.Int16, reflect.Int32, reflect.Int64:
+		return int(v.Int()), true
+	case reflect.Uint, reflect.Uint8, reflect.Uint16, reflect.Uint32, reflect.Uint64, reflect.Uintptr:
+		return int(v.Uint()), true
+	}
+	return 0, false
+}
+
 // pending returns the runes waiting in the pushback ring, oldest first.
-func (p *scanProbe) pending() []rune {
+func (p *scanProbe) pending() (out []rune) {
+	defer func() {
+		if recover() != nil {
+			// the ring does not look the way this accessor expects: the probe switches itself off
+			p.ok, p.why, out = false, "pushback ring has an unexpected layout", nil
+		}
+	}()
 	n, _ := fieldAny(p.rd, "n")
 	i, _ := fieldAny(p.rd, "i")
 	buf, _ := fieldAny(p.rd, "buf")
-	cnt, idx, ln := int(n.Int()), int(i.Int()), buf.Len()
+	cnt, ok1 := asInt(n)
+	idx, ok2 := asInt(i)
+	if !ok1 || !ok2 || (buf.Kind() != reflect.Array && buf.Kind() != reflect.Slice) {
+		p.ok, p.why = false, "pushback ring counters are not integers"
+		return nil
+	}
+	ln := buf.Len()
 	if cnt <= 0 || ln == 0 {
 		return nil
 	}
 	if cnt > ln {
 		cnt = ln
 	}
-	out := make([]rune, 0, cnt)
+	out = make([]rune, 0, cnt)
 	for j := cnt - 1; j >= 0; j-- {
 		e := buf.Index(((idx-j)%ln + ln) % ln)
 		ch, ok := fieldAny(e, "ch")
 		if !ok {
+			p.ok, p.why = false, "ring entries have no field ch"
 			return nil
 		}
-		out = append(out, rune(ch.Int()))
+		c, ok := asInt(ch)
+		if !ok {
+			p.ok, p.why = false, "ring entry ch is not an integer"
+			return nil
+		}
+		out = append(out, rune(c))
 	}
 	return out
 }
@@ -288,13 +321,18 @@ func scanAll(text []byte, sp simstream.Plan, bufSize int) *lexScan {
 			lt := lexTok{tok: tok, lit: lit, pos: pos, start: prev, end: -1}
 			if pr.ok {
 				c, why := pr.consumed(eff, st.Delivered)
-				if why != "" && out.problem == "" {
-					out.problem = why
-				}
-				lt.end = c
-				prev = c
-				if st.Reads > before && len(pr.pending()) > 0 {
-					out.refill = true
+				if !pr.ok {
+					// the accessor gave up midway: no extents for this scan at all
+					out.probeOK, out.probeWhy, out.problem = false, pr.why, ""
+				} else {
+					if why != "" && out.problem == "" {
+						out.problem = why
+					}
+					lt.end = c
+					prev = c
+					if st.Reads > before && len(pr.pending()) > 0 {
+						out.refill = true
+					}
 				}
 			}
 			out.toks = append(out.toks, lt)
